@@ -72,3 +72,25 @@ func TestScratchElab(t *testing.T) {
 		}
 	}
 }
+
+func TestScratchLint(t *testing.T) {
+	dirs, _ := filepath.Glob("/verif/.work/corpus/*")
+	for _, d := range dirs {
+		files := loadDir(t, d)
+		des, _ := ParseFiles(files)
+		top := "bondmachine"
+		if _, ok := files["bondmachine.v"]; !ok {
+			top = "stk"
+		}
+		ds := des.Lint(top, nil)
+		t.Logf("== %s: %d diags", filepath.Base(d), len(ds))
+		cnt := map[string]int{}
+		for _, dg := range ds {
+			cnt[dg.Class]++
+			if cnt[dg.Class] <= 6 || (dg.Class != ClassDupDecl && dg.Class != ClassNonV2001 && cnt[dg.Class] < 40) {
+				t.Logf("   %v", dg)
+			}
+		}
+		t.Logf("   counts: %v", cnt)
+	}
+}
